@@ -822,6 +822,11 @@ def randn(*shape):
     c = Ctx.cur
     n = int(_np.prod(shape)) if shape else 1
     vals = [SymReal(c.fresh("rnd")) for _ in range(n)]
+    # contract of a continuous random draw: not identically zero (measure-zero event excluded)
+    ss = vals[0] * vals[0]
+    for v in vals[1:]:
+        ss = ss + v * v
+    c.assume(ss > 0)
     if not shape:
         return vals[0]
     return sarr(vals).reshape(shape)
